@@ -7,19 +7,33 @@ import WacProofs.Lemmas.Toposort
 namespace Wac
 open Wac.Spec
 
-/-- the argument names of an instantiate item: the names of the argument edges of an
-    instantiation node in adjacency order, then the unsatisfied imports of its package in
-    world order -/
-def ArgNamesOk (g : GraphVal) (names : List Str) : Prop :=
+/-- the argument list of an instantiate item: the arguments for the argument edges of an
+    instantiation node in adjacency order, then the implicit arguments recorded for it (`Imp`) -/
+def ArgsOk (g : GraphVal) (Imp : Nat → List (Str × Kind × Nat)) (args : List (Str × Kind × Nat)) : Prop :=
   ∃ n ∈ g.nodes, ∃ slot sat p, n.kind = .instantiation slot sat ∧ g.pkg? slot = some p ∧
-    names = n.args.map (·.1) ++ (unsatisfied p sat).map (·.name)
+    ∃ E, args = E ++ Imp n.id ∧ E.map (·.1) = n.args.map (·.1)
 
-/-- the implicit arguments recorded for a not yet encoded instantiation are named like the
-    unsatisfied imports of its package -/
-def ImpNames (g : GraphVal) (st : EncSt) : Prop :=
+/-- the implicit arguments `encode_imports` recorded are named like the unsatisfied imports of
+    the node's package, in world order -/
+def ImpNamed (g : GraphVal) (Imp : Nat → List (Str × Kind × Nat)) : Prop :=
   ∀ n ∈ g.nodes, ∀ slot sat p, n.kind = .instantiation slot sat → g.pkg? slot = some p →
-    natGet st.nodeIdx n.id = none →
-    (implicitList st.implicit n.id).map (·.1) = (unsatisfied p sat).map (·.name)
+    (Imp n.id).map (·.1) = (unsatisfied p sat).map (·.name)
+
+/-- a not yet encoded node still has the implicit arguments `encode_imports` recorded -/
+def ImpFrozen (Imp : Nat → List (Str × Kind × Nat)) (st : EncSt) : Prop :=
+  ∀ id, natGet st.nodeIdx id = none → implicitList st.implicit id = Imp id
+
+/-- the items emitted so far stay -/
+def ItemsLe (st st' : EncSt) : Prop := ∃ D, st'.items = st.items ++ D
+
+theorem ItemsLe.refl (st : EncSt) : ItemsLe st st := ⟨[], by simp⟩
+theorem ItemsLe.trans {a b c : EncSt} (h1 : ItemsLe a b) (h2 : ItemsLe b c) : ItemsLe a c := by
+  obtain ⟨D1, e1⟩ := h1
+  obtain ⟨D2, e2⟩ := h2
+  exact ⟨D1 ++ D2, by rw [e2, e1, List.append_assoc]⟩
+theorem emit_itemsLe (st : EncSt) (it : Item) : ItemsLe st (st.emit it).1 := ⟨[it], emit_items st it⟩
+theorem ItemsLe.mem {st st' : EncSt} (h : ItemsLe st st') {it : Item} (hm : it ∈ st.items) : it ∈ st'.items := by
+  obtain ⟨D, e⟩ := h; rw [e]; exact List.mem_append.mpr (Or.inl hm)
 
 theorem impRel_names {w : WState} {agg : Agg} {enc : List (Str × (Kind × Nat))} {A : List (Str × Kind × Nat)}
     {E : List (Str × Nat)} (h : ImpRel w agg enc A E) : A.map (·.1) = E.map (·.1) := by
@@ -42,12 +56,13 @@ theorem importDeps_nodeIdx (ds : List Str) (st : EncSt) : (importDeps ds st).nod
     · rw [ih]; simp [emit_nodeIdx]
 
 /-- `encode_imports` establishes the invariant -/
-theorem encodeImports_sinv {g : GraphVal} {A : Str → Kind → Prop} {B : List Str → Prop} (wf : WF g)
+theorem encodeImports_sinv {g : GraphVal} {A : Str → Kind → Prop} {B : List (Str × Kind × Nat) → Prop}
+    {C : Str → Kind → Prop} (wf : WF g)
     {importNodes : List Nat} (hcomplete : ∀ nd ∈ g.nodes, nd.isImport = true → nd.id ∈ importNodes)
     {agg : Agg} (hagg : aggOf g importNodes = some agg)
     (hA : ∀ e ∈ fixedImports agg, A e.1 e.2.kind ∧ (e.2.kind = .instance → ∀ d ∈ e.2.deps, A d .instance))
     {st1 : EncSt} (he : encodeImports g importNodes {} = .ok st1) :
-    SInv g A B st1 ∧ ImpNames g st1 := by
+    SInv g A B C st1 ∧ ImpNamed g (fun id => implicitList st1.implicit id) := by
   have hkeys := aggOf_keysNodup hagg
   have hexk := explicitKind_holds wf hcomplete hagg
   unfold encodeImports at he
@@ -70,7 +85,7 @@ theorem encodeImports_sinv {g : GraphVal} {A : Str → Kind → Prop} {B : List 
         intro e he'
         rw [← hl] at he'
         rcases List.mem_append.mp he' with h1 | h1 <;> exact (List.mem_filter.mp h1).1
-      have hAll := importAll_sinv (g := g) (A := A) (B := B) l (st := {}) (enc := []) [] SInv.init
+      have hAll := importAll_sinv (g := g) (A := A) (B := B) (C := C) l (st := {}) (enc := []) [] SInv.init
         (by intro nm k idx hq; simp [amGet] at hq) (fun e he' => hA e (hlmem e he'))
       generalize hgen : importAll id l {} [] = res at he hAll
       obtain ⟨stA, enc⟩ := res
@@ -109,7 +124,8 @@ theorem encodeImports_sinv {g : GraphVal} {A : Str → Kind → Prop} {B : List 
           rw [kindOf_of_node? hnd, hk, h2, h3]
         obtain ⟨hs1, hc1, hi1, him1, hp1⟩ := fillExplicit_sinv explicit hsB hrB hkind he
         refine ⟨hs1, ?_⟩
-        intro n hn slot sat p hk hp _
+        intro n hn slot sat p hk hp
+        show (implicitList st1.implicit n.id).map (·.1) = _
         rw [him1]
         obtain ⟨Aa, hAa, hR⟩ := himpB n.id
         have h0 : implicitList stA.implicit n.id = [] := by rw [hA0]; rfl
@@ -123,21 +139,23 @@ theorem encodeImports_sinv {g : GraphVal} {A : Str → Kind → Prop} {B : List 
 
 /-! ### the loop over the non-import nodes -/
 
-theorem pkgComponent_sinv {g : GraphVal} {A B} {o : Opts} {st : EncSt} {slot : Nat} {p : PkgVal} (h : SInv g A B st)
+theorem pkgComponent_sinv {g : GraphVal} {A B C} {o : Opts} {st : EncSt} {slot : Nat} {p : PkgVal} (h : SInv g A B C st)
     (hA : o.define = false → A (pkgImportName p) .component) :
-    SInv g A B (pkgComponent o st slot p).1 ∧ CntLe st (pkgComponent o st slot p).1 ∧
+    SInv g A B C (pkgComponent o st slot p).1 ∧ CntLe st (pkgComponent o st slot p).1 ∧
       (pkgComponent o st slot p).2 < (pkgComponent o st slot p).1.cnt .component ∧
-      (pkgComponent o st slot p).1.nodeIdx = st.nodeIdx ∧ (pkgComponent o st slot p).1.implicit = st.implicit := by
+      (pkgComponent o st slot p).1.nodeIdx = st.nodeIdx ∧ (pkgComponent o st slot p).1.implicit = st.implicit ∧
+      ItemsLe st (pkgComponent o st slot p).1 := by
   unfold pkgComponent
   cases hq : natGet st.pkgs slot with
-  | some c => exact ⟨h, CntLe.refl _, h.pkgs slot c hq, rfl, rfl⟩
+  | some c => exact ⟨h, CntLe.refl _, h.pkgs slot c hq, rfl, rfl, ItemsLe.refl _⟩
   | none =>
     simp only
     by_cases hd : o.define = true
     · simp only [hd, ↓reduceIte]
-      have h1 : SInv g A B (st.emit (.component p.bytesId)).1 := h.emit_plain _ rfl (by simp) (by simp)
+      have h1 : SInv g A B C (st.emit (.component p.bytesId)).1 := h.emit_plain _ rfl (by simp) (by simp) (by simp)
       have hlt := emit_snd_lt st (.component p.bytesId) .component rfl
-      refine ⟨?_, fun k => emit_cntLe st (.component p.bytesId) k, hlt, by simp [emit_nodeIdx], by simp [emit_implicit]⟩
+      refine ⟨?_, fun k => emit_cntLe st (.component p.bytesId) k, hlt, by simp [emit_nodeIdx], by simp [emit_implicit],
+        ⟨[.component p.bytesId], by simp [emit_items]⟩⟩
       apply h1.setPkgs
       intro s c hq'
       rw [natGet_snoc, emit_pkgs] at hq'
@@ -158,7 +176,7 @@ theorem pkgComponent_sinv {g : GraphVal} {A B} {o : Opts} {st : EncSt} {slot : N
       have hlt := emit_snd_lt (st.emit .typeDef).1 (.import (pkgImportName p) .component) .component rfl
       refine ⟨?_, fun k => Nat.le_trans (emit_cntLe st .typeDef k)
         (emit_cntLe (st.emit .typeDef).1 (.import (pkgImportName p) .component) k), hlt, by simp [emit_nodeIdx],
-        by simp [emit_implicit]⟩
+        by simp [emit_implicit], ⟨[.typeDef, .import (pkgImportName p) .component], by simp [emit_items]⟩⟩
       apply h2.setPkgs
       intro s c hq'
       rw [natGet_snoc, emit_pkgs, emit_pkgs] at hq'
@@ -173,7 +191,7 @@ theorem pkgComponent_sinv {g : GraphVal} {A B} {o : Opts} {st : EncSt} {slot : N
         · injection hq' with hq'; rw [← hq']; exact hlt
         · cases hq'
 
-theorem explicitArgs_range {g : GraphVal} {A B} {st : EncSt} (h : SInv g A B st) (inc : List (EdgeW × Nat))
+theorem explicitArgs_range {g : GraphVal} {A B C} {st : EncSt} (h : SInv g A B C st) (inc : List (EdgeW × Nat))
     {args : List (Str × Kind × Nat)} (he : explicitArgs g st inc = .ok args) :
     (∀ a ∈ args, a.2.2 < st.cnt a.2.1) ∧ args.map (·.1) = (Node.argsOf inc).map (·.1) := by
   induction inc generalizing args with
@@ -229,25 +247,27 @@ theorem implicitList_filter (m : List (Nat × List (Str × Kind × Nat))) (n k :
   · simpa [implicitList, natGet_filter_ne m n k hk] using ha
 
 /-- what one node's encoding keeps -/
-structure NodeStep (g : GraphVal) (A : Str → Kind → Prop) (st st' : EncSt) (id idx : Nat) : Prop where
-  sinv : SInv g A (ArgNamesOk g) st'
+structure NodeStep (g : GraphVal) (A : Str → Kind → Prop) (C : Str → Kind → Prop)
+    (Imp : Nat → List (Str × Kind × Nat)) (st st' : EncSt) (id idx : Nat) : Prop where
+  sinv : SInv g A (ArgsOk g Imp) C st'
+  items : ItemsLe st st'
   le : CntLe st st'
   lt : idx < st'.cnt (kindOf g id)
   nodeIdx : st'.nodeIdx = st.nodeIdx
   implicit : ∀ m, m ≠ id → natGet st'.implicit m = natGet st.implicit m
 
-theorem encInstantiation_sinv {g : GraphVal} {A} {o : Opts} {st st' : EncSt} {n : Node} {slot : Nat} {sat : List Nat}
+theorem encInstantiation_sinv {g : GraphVal} {A C Imp} {o : Opts} {st st' : EncSt} {n : Node} {slot : Nat} {sat : List Nat}
     {idx : Nat} (wf : WF g) (hn : n ∈ g.nodes) (hk : n.kind = .instantiation slot sat)
-    (h : SInv g A (ArgNamesOk g) st) (hi : ImpNames g st) (hnone : natGet st.nodeIdx n.id = none)
+    (h : SInv g A (ArgsOk g Imp) C st) (hi : ImpFrozen Imp st) (hnone : natGet st.nodeIdx n.id = none)
     (hA : ∀ p, g.pkg? slot = some p → o.define = false → A (pkgImportName p) .component)
-    (he : encInstantiation g o st n slot = .ok (st', idx)) : NodeStep g A st st' n.id idx := by
+    (he : encInstantiation g o st n slot = .ok (st', idx)) : NodeStep g A C Imp st st' n.id idx := by
   unfold encInstantiation at he
   cases hp : g.pkg? slot with
   | none => simp [hp] at he
   | some p =>
     simp only [hp] at he
-    obtain ⟨h1, hle1, hlt1, hn1, hi1⟩ := pkgComponent_sinv (o := o) (slot := slot) (p := p) h (hA p hp)
-    generalize pkgComponent o st slot p = r at he h1 hle1 hlt1 hn1 hi1
+    obtain ⟨h1, hle1, hlt1, hn1, hi1, hit1⟩ := pkgComponent_sinv (o := o) (slot := slot) (p := p) h (hA p hp)
+    generalize pkgComponent o st slot p = r at he h1 hle1 hlt1 hn1 hi1 hit1
     cases hx : explicitArgs g r.1 n.inc with
     | error e => simp [hx] at he
     | panic s => simp [hx] at he
@@ -255,7 +275,7 @@ theorem encInstantiation_sinv {g : GraphVal} {A} {o : Opts} {st st' : EncSt} {n 
       simp only [hx] at he
       injection he with he
       obtain ⟨ha1, ha2⟩ := explicitArgs_range h1 n.inc hx
-      have h2 : SInv g A (ArgNamesOk g) { r.1 with implicit := r.1.implicit.filter fun e => e.1 != n.id } :=
+      have h2 : SInv g A (ArgsOk g Imp) C { r.1 with implicit := r.1.implicit.filter fun e => e.1 != n.id } :=
         h1.setImplicit _ (fun m a ha => h1.implicit m a (implicitList_filter _ _ _ a ha))
       have himpl : ∀ a ∈ (natGet r.1.implicit n.id).getD [], a.2.2 < r.1.cnt a.2.1 := fun a ha => h1.implicit n.id a ha
       have hop : operandsOk r.1.cnt (.instantiate r.2 (args ++ (natGet r.1.implicit n.id).getD [])) = true := by
@@ -264,20 +284,20 @@ theorem encInstantiation_sinv {g : GraphVal} {A} {o : Opts} {st st' : EncSt} {n 
         rintro a (ha | ha)
         · exact ha1 a ha
         · exact himpl a ha
-      have hnames : ArgNamesOk g ((args ++ (natGet r.1.implicit n.id).getD []).map (·.1)) := by
-        refine ⟨n, hn, slot, sat, p, hk, hp, ?_⟩
-        rw [List.map_append, ha2]
-        congr 1
-        have := hi n hn slot sat p hk hp hnone
+      have hargs : ArgsOk g Imp (args ++ (natGet r.1.implicit n.id).getD []) := by
+        refine ⟨n, hn, slot, sat, p, hk, hp, args, ?_, ha2⟩
+        have := hi n.id hnone
         rw [← hi1] at this
-        exact this
+        rw [← this]; rfl
       have h3 := h2.emit (.instantiate r.2 (args ++ (natGet r.1.implicit n.id).getD [])) hop (by simp)
-        (by intro c a e; injection e with e1 e2; subst e2; exact hnames)
+        (by intro c a e; injection e with e1 e2; subst e2; exact hargs) (by simp)
       have hst := congrArg Prod.fst he
       have hidx := congrArg Prod.snd he
       simp only at hst hidx
       rw [eq_comm] at hst hidx
-      refine ⟨by rw [hst]; exact h3, ?_, ?_, ?_, ?_⟩
+      refine ⟨by rw [hst]; exact h3, ?_, ?_, ?_, ?_, ?_⟩
+      · rw [hst]
+        exact hit1.trans (emit_itemsLe ({ r.1 with implicit := r.1.implicit.filter fun e => e.1 != n.id } : EncSt) _)
       · rw [hst]; intro k
         have := emit_cntLe ({ r.1 with implicit := r.1.implicit.filter fun e => e.1 != n.id } : EncSt)
           (.instantiate r.2 (args ++ (natGet r.1.implicit n.id).getD [])) k
@@ -294,8 +314,8 @@ theorem encInstantiation_sinv {g : GraphVal} {A} {o : Opts} {st st' : EncSt} {n 
         show natGet (r.1.implicit.filter fun e => e.1 != n.id) m = _
         rw [natGet_filter_ne _ _ _ hm, hi1]
 
-theorem encAlias_sinv {g : GraphVal} {A} {st st' : EncSt} {n : Node} {idx : Nat} (wf : WF g) (hn : n ∈ g.nodes)
-    (h : SInv g A (ArgNamesOk g) st) (he : encAlias g st n = .ok (st', idx)) : NodeStep g A st st' n.id idx := by
+theorem encAlias_sinv {g : GraphVal} {A C Imp} {st st' : EncSt} {n : Node} {idx : Nat} (wf : WF g) (hn : n ∈ g.nodes)
+    (h : SInv g A (ArgsOk g Imp) C st) (he : encAlias g st n = .ok (st', idx)) : NodeStep g A C Imp st st' n.id idx := by
   unfold encAlias at he
   cases ha : n.aliasSource with
   | none => simp [ha] at he
@@ -316,31 +336,33 @@ theorem encAlias_sinv {g : GraphVal} {A} {st st' : EncSt} {n : Node} {idx : Nat}
           have hlt := h.nodes src inst hq
           rw [kindOf_of_node? hs, hki] at hlt
           have h1 := h.emit_plain (.aliasExport inst n.ty.kind en) (by simpa [operandsOk] using hlt) (by simp) (by simp)
+            (by simp)
           have hst : st' = (st.emit (.aliasExport inst n.ty.kind en)).1 := by rw [he]
           have hidx : idx = (st.emit (.aliasExport inst n.ty.kind en)).2 := by rw [he]
-          refine ⟨by rw [hst]; exact h1, by rw [hst]; exact emit_cntLe _ _, ?_, by rw [hst, emit_nodeIdx],
-            fun m _ => by rw [hst, emit_implicit]⟩
+          refine ⟨by rw [hst]; exact h1, by rw [hst]; exact emit_itemsLe _ _, by rw [hst]; exact emit_cntLe _ _, ?_,
+            by rw [hst, emit_nodeIdx], fun m _ => by rw [hst, emit_implicit]⟩
           rw [hst, hidx, kindOf_of_node? (node?_of_mem wf.idsNodup hn)]
           exact emit_snd_lt _ _ n.ty.kind rfl
       · simp [hki] at he
 
-theorem encDefinition_sinv {g : GraphVal} {A} {st st' : EncSt} {n : Node} {idx : Nat} (wf : WF g) (hn : n ∈ g.nodes)
-    (hk : n.kind = .definition)
-    (h : SInv g A (ArgNamesOk g) st) (he : encDefinition st n = .ok (st', idx)) : NodeStep g A st st' n.id idx := by
+theorem encDefinition_sinv {g : GraphVal} {A C Imp} {st st' : EncSt} {n : Node} {idx : Nat} (wf : WF g) (hn : n ∈ g.nodes)
+    (hk : n.kind = .definition) (hC : ∀ name, n.exportName = some name → C name .type)
+    (h : SInv g A (ArgsOk g Imp) C st) (he : encDefinition st n = .ok (st', idx)) :
+    NodeStep g A C Imp st st' n.id idx := by
   unfold encDefinition at he
   cases hx : n.exportName with
   | none => simp [hx] at he
   | some name =>
     simp only [hx] at he
     injection he with he
-    have hd : SInv g A (ArgNamesOk g) (defTypeIndex st n).1 ∧ CntLe st (defTypeIndex st n).1 ∧
+    have hd : SInv g A (ArgsOk g Imp) C (defTypeIndex st n).1 ∧ CntLe st (defTypeIndex st n).1 ∧
         (defTypeIndex st n).2 < (defTypeIndex st n).1.cnt .type ∧ (defTypeIndex st n).1.nodeIdx = st.nodeIdx ∧
-        (defTypeIndex st n).1.implicit = st.implicit := by
+        (defTypeIndex st n).1.implicit = st.implicit ∧ ItemsLe st (defTypeIndex st n).1 := by
       unfold defTypeIndex
       cases hb : n.defAlias.bind (natGet st.nodeIdx) with
       | some i =>
         simp only
-        refine ⟨h, CntLe.refl _, ?_, by first | rfl | trivial, by first | rfl | trivial⟩
+        refine ⟨h, CntLe.refl _, ?_, by first | rfl | trivial, by first | rfl | trivial, ItemsLe.refl _⟩
         cases hda : n.defAlias with
         | none => simp [hda] at hb
         | some m =>
@@ -349,13 +371,16 @@ theorem encDefinition_sinv {g : GraphVal} {A} {st st' : EncSt} {n : Node} {idx :
           rwa [wf.defAliasType n hn m hda] at this
       | none =>
         simp only
-        exact ⟨h.typeDef, emit_cntLe _ _, emit_snd_lt _ _ .type rfl, emit_nodeIdx _ _, emit_implicit _ _⟩
+        exact ⟨h.typeDef, emit_cntLe _ _, emit_snd_lt _ _ .type rfl, emit_nodeIdx _ _, emit_implicit _ _,
+          emit_itemsLe _ _⟩
     generalize defTypeIndex st n = r at he hd
-    obtain ⟨h1, hle1, hlt1, hn1, hi1⟩ := hd
-    have h2 := h1.emit_plain (.export name .type r.2) (by simpa [operandsOk] using hlt1) (by simp) (by simp)
+    obtain ⟨h1, hle1, hlt1, hn1, hi1, hit1⟩ := hd
+    have h2 := h1.emit (.export name .type r.2) (by simpa [operandsOk] using hlt1) (by simp) (by simp)
+      (by intro n' k' i' e; injection e with e1 e2 e3; subst e1 e2; exact hC name hx)
     have hst : st' = (r.1.emit (.export name .type r.2)).1 := by rw [he]
     have hidx : idx = (r.1.emit (.export name .type r.2)).2 := by rw [he]
-    refine ⟨by rw [hst]; exact h2, by rw [hst]; exact hle1.trans (emit_cntLe _ _), ?_,
+    refine ⟨by rw [hst]; exact h2, by rw [hst]; exact hit1.trans (emit_itemsLe _ _),
+      by rw [hst]; exact hle1.trans (emit_cntLe _ _), ?_,
       by rw [hst, emit_nodeIdx]; exact hn1, fun m _ => by rw [hst, emit_implicit, hi1]⟩
     rw [hst, hidx, kindOf_of_node? (node?_of_mem wf.idsNodup hn), wf.defKind n hn hk]
     exact emit_snd_lt _ _ .type rfl
@@ -364,6 +389,10 @@ theorem encDefinition_sinv {g : GraphVal} {A} {st st' : EncSt} {n : Node} {idx :
 def PkgImportsOk (g : GraphVal) (o : Opts) (A : Str → Kind → Prop) : Prop :=
   ∀ n ∈ g.nodes, ∀ slot sat p, n.kind = .instantiation slot sat → g.pkg? slot = some p → o.define = false →
     A (pkgImportName p) .component
+
+/-- the exports of the definitions are allowed -/
+def DefExportsOk (g : GraphVal) (C : Str → Kind → Prop) : Prop :=
+  ∀ n ∈ g.nodes, n.kind = .definition → ∀ name, n.exportName = some name → C name .type
 
 theorem pkgComponent_nodeIdx (o : Opts) (st : EncSt) (slot : Nat) (p : PkgVal) :
     (pkgComponent o st slot p).1.nodeIdx = st.nodeIdx := by
@@ -392,12 +421,13 @@ theorem encInstantiation_nodeIdx {g : GraphVal} {o : Opts} {st st' : EncSt} {n :
       exact pkgComponent_nodeIdx o st slot p
 
 /-- `node_indexes.insert` after one node's encoding -/
-theorem encNode_finish {g : GraphVal} {A} {st st1 : EncSt} {id idx : Nat}
-    (hi : ImpNames g st) (hs : NodeStep g A st st1 id idx) :
-    SInv g A (ArgNamesOk g) { st1 with nodeIdx := st1.nodeIdx ++ [(id, idx)] } ∧
-      ImpNames g { st1 with nodeIdx := st1.nodeIdx ++ [(id, idx)] } ∧
-      CntLe st { st1 with nodeIdx := st1.nodeIdx ++ [(id, idx)] } := by
-  refine ⟨?_, ?_, fun k => hs.le k⟩
+theorem encNode_finish {g : GraphVal} {A C Imp} {st st1 : EncSt} {id idx : Nat}
+    (hi : ImpFrozen Imp st) (hs : NodeStep g A C Imp st st1 id idx) :
+    SInv g A (ArgsOk g Imp) C { st1 with nodeIdx := st1.nodeIdx ++ [(id, idx)] } ∧
+      ImpFrozen Imp { st1 with nodeIdx := st1.nodeIdx ++ [(id, idx)] } ∧
+      CntLe st { st1 with nodeIdx := st1.nodeIdx ++ [(id, idx)] } ∧
+      ItemsLe st { st1 with nodeIdx := st1.nodeIdx ++ [(id, idx)] } := by
+  refine ⟨?_, ?_, fun k => hs.le k, hs.items⟩
   · apply hs.sinv.setNodeIdx
     intro m i hq'
     rw [natGet_snoc] at hq'
@@ -414,22 +444,23 @@ theorem encNode_finish {g : GraphVal} {A} {st st1 : EncSt} {id idx : Nat}
         subst hm hq'
         exact hs.lt
       · cases hq'
-  · intro m hm slot sat p hk hp hnone
+  · intro m hnone
     simp only at hnone ⊢
     rw [natGet_snoc] at hnone
-    cases hq0 : natGet st1.nodeIdx m.id with
+    cases hq0 : natGet st1.nodeIdx m with
     | some x => simp [hq0] at hnone
     | none =>
       simp only [hq0] at hnone
-      have hne : m.id ≠ id := by
+      have hne : m ≠ id := by
         intro e
         simp [e] at hnone
-      have h1 := hi m hm slot sat p hk hp (by rw [← hs.nodeIdx]; exact hq0)
-      simpa [implicitList, hs.implicit m.id hne] using h1
+      have h1 := hi m (by rw [← hs.nodeIdx]; exact hq0)
+      simpa [implicitList, hs.implicit m hne] using h1
 
-theorem encNode_sinv {g : GraphVal} {A} {o : Opts} {st st' : EncSt} {id : Nat} (wf : WF g)
-    (hA : PkgImportsOk g o A) (h : SInv g A (ArgNamesOk g) st) (hi : ImpNames g st)
-    (he : encNode g o st id = .ok st') : SInv g A (ArgNamesOk g) st' ∧ ImpNames g st' ∧ CntLe st st' := by
+theorem encNode_sinv {g : GraphVal} {A C Imp} {o : Opts} {st st' : EncSt} {id : Nat} (wf : WF g)
+    (hA : PkgImportsOk g o A) (hC : DefExportsOk g C) (h : SInv g A (ArgsOk g Imp) C st) (hi : ImpFrozen Imp st)
+    (he : encNode g o st id = .ok st') :
+    SInv g A (ArgsOk g Imp) C st' ∧ ImpFrozen Imp st' ∧ CntLe st st' ∧ ItemsLe st st' := by
   unfold encNode at he
   cases hn : g.node? id with
   | none => simp [hn] at he
@@ -451,7 +482,7 @@ theorem encNode_sinv {g : GraphVal} {A} {o : Opts} {st st' : EncSt} {id : Nat} (
           simp only [hq] at he
           injection he with he
           subst he
-          exact encNode_finish hi (hid ▸ encDefinition_sinv wf hmem hk h hr)
+          exact encNode_finish hi (hid ▸ encDefinition_sinv wf hmem hk (hC n hmem hk) h hr)
     | instantiation slot sat =>
       simp only [hk] at he
       cases hr : encInstantiation g o st n slot with
@@ -487,11 +518,12 @@ theorem encNode_sinv {g : GraphVal} {A} {o : Opts} {st st' : EncSt} {id : Nat} (
           exact encNode_finish hi (hid ▸ encAlias_sinv wf hmem h hr)
     | «import» nm => simp [hk] at he
 
-theorem encNodes_sinv {g : GraphVal} {A} {o : Opts} (wf : WF g) (hA : PkgImportsOk g o A) (ids : List Nat)
-    {st st' : EncSt} (h : SInv g A (ArgNamesOk g) st) (hi : ImpNames g st)
-    (he : encNodes g o ids st = .ok st') : SInv g A (ArgNamesOk g) st' := by
+theorem encNodes_sinv {g : GraphVal} {A C Imp} {o : Opts} (wf : WF g) (hA : PkgImportsOk g o A)
+    (hC : DefExportsOk g C) (ids : List Nat)
+    {st st' : EncSt} (h : SInv g A (ArgsOk g Imp) C st) (hi : ImpFrozen Imp st)
+    (he : encNodes g o ids st = .ok st') : SInv g A (ArgsOk g Imp) C st' ∧ ItemsLe st st' := by
   induction ids generalizing st with
-  | nil => simp only [encNodes] at he; injection he with he; subst he; exact h
+  | nil => simp only [encNodes] at he; injection he with he; subst he; exact ⟨h, ItemsLe.refl _⟩
   | cons id ids ih =>
     simp only [encNodes] at he
     cases h1 : encNode g o st id with
@@ -499,33 +531,40 @@ theorem encNodes_sinv {g : GraphVal} {A} {o : Opts} (wf : WF g) (hA : PkgImports
     | panic s => simp [h1] at he
     | ok st1 =>
       simp only [h1] at he
-      obtain ⟨r1, r2, _⟩ := encNode_sinv wf hA h hi h1
-      exact ih r1 r2 he
+      obtain ⟨r1, r2, _, r4⟩ := encNode_sinv wf hA hC h hi h1
+      obtain ⟨q1, q2⟩ := ih r1 r2 he
+      exact ⟨q1, r4.trans q2⟩
 
 /-! ### exports and names -/
 
-theorem encExports_sinv {g : GraphVal} {A B} (exps : List (Str × Nat)) {st st' : EncSt} (h : SInv g A B st)
-    (he : encExports g exps st = .ok st') : SInv g A B st' := by
+theorem encExports_sinv {g : GraphVal} {A B C} (exps : List (Str × Nat)) {st st' : EncSt} (h : SInv g A B C st)
+    (hC : ∀ e ∈ exps, ∀ n, g.node? e.2 = some n → C e.1 n.ty.kind)
+    (he : encExports g exps st = .ok st') : SInv g A B C st' ∧ ItemsLe st st' := by
   induction exps generalizing st with
-  | nil => simp only [encExports] at he; injection he with he; subst he; exact h
+  | nil => simp only [encExports] at he; injection he with he; subst he; exact ⟨h, ItemsLe.refl _⟩
   | cons e exps ih =>
     obtain ⟨name, id⟩ := e
+    have hC' : ∀ e ∈ exps, ∀ n, g.node? e.2 = some n → C e.1 n.ty.kind :=
+      fun e he' => hC e (List.mem_cons_of_mem _ he')
     simp only [encExports] at he
     cases hn : g.node? id with
     | none => simp [hn] at he
     | some n =>
       simp only [hn] at he
       split at he
-      · exact ih h he
+      · exact ih h hC' he
       · cases hq : natGet st.nodeIdx id with
         | none => simp [hq] at he
         | some idx =>
           simp only [hq] at he
           have hlt := h.nodes id idx hq
           rw [kindOf_of_node? hn] at hlt
-          exact ih (h.emit_plain (.export name n.ty.kind idx) (by simpa [operandsOk] using hlt) (by simp) (by simp)) he
+          obtain ⟨q1, q2⟩ := ih (h.emit (.export name n.ty.kind idx) (by simpa [operandsOk] using hlt) (by simp) (by simp)
+            (by intro n' k' i' e; injection e with e1 e2 e3; subst e1 e2
+                exact hC (name, id) (List.mem_cons_self ..) n hn)) hC' he
+          exact ⟨q1, (emit_itemsLe _ _).trans q2⟩
 
-theorem nameEntries_range {g : GraphVal} {A B} {st : EncSt} (h : SInv g A B st) (k : Kind) (nodes : List Node)
+theorem nameEntries_range {g : GraphVal} {A B C} {st : EncSt} (h : SInv g A B C st) (k : Kind) (nodes : List Node)
     (hnodes : ∀ n ∈ nodes, g.node? n.id = some n) {l : List (Kind × Nat × Str)}
     (he : nameEntries st k nodes = .ok l) : ∀ e ∈ l, e.2.1 < st.cnt e.1 := by
   induction nodes generalizing l with
@@ -558,7 +597,7 @@ theorem nameEntries_range {g : GraphVal} {A B} {st : EncSt} (h : SInv g A B st) 
               rwa [kindOf_of_node? (hnodes n (List.mem_cons_self ..)), hk] at this
             · exact ih hn' hr e e1
 
-theorem allNameEntries_range {g : GraphVal} {A B} {st : EncSt} (h : SInv g A B st) (nodes : List Node)
+theorem allNameEntries_range {g : GraphVal} {A B C} {st : EncSt} (h : SInv g A B C st) (nodes : List Node)
     (hnodes : ∀ n ∈ nodes, g.node? n.id = some n) (ks : List Kind) {l : List (Kind × Nat × Str)}
     (he : allNameEntries st nodes ks = .ok l) : ∀ e ∈ l, e.2.1 < st.cnt e.1 := by
   induction ks generalizing l with
@@ -581,8 +620,8 @@ theorem allNameEntries_range {g : GraphVal} {A B} {st : EncSt} (h : SInv g A B s
         · exact nameEntries_range h k nodes hnodes h1 e e1
         · exact ih h2 e e1
 
-theorem encNames_sinv {g : GraphVal} {A B} (wf : WF g) {st st' : EncSt} (h : SInv g A B st)
-    (he : encNames g st = .ok st') : SInv g A B st' := by
+theorem encNames_sinv {g : GraphVal} {A B C} (wf : WF g) {st st' : EncSt} (h : SInv g A B C st)
+    (he : encNames g st = .ok st') : SInv g A B C st' ∧ ItemsLe st st' := by
   unfold encNames at he
   cases h1 : allNameEntries st g.nodes [.type, .func, .instance, .component, .module, .value] with
   | error e => simp [h1] at he
@@ -591,20 +630,24 @@ theorem encNames_sinv {g : GraphVal} {A B} (wf : WF g) {st st' : EncSt} (h : SIn
     simp only [h1] at he
     have hr := allNameEntries_range h g.nodes (fun n hn => node?_of_mem wf.idsNodup hn) _ h1
     cases l with
-    | nil => simp only at he; injection he with he; subst he; exact h
+    | nil => simp only at he; injection he with he; subst he; exact ⟨h, ItemsLe.refl _⟩
     | cons e l =>
       simp only at he
       injection he with he; subst he
-      exact h.emit_plain _ (by simpa [operandsOk] using hr) (by simp) (by simp)
+      exact ⟨h.emit_plain _ (by simpa [operandsOk] using hr) (by simp) (by simp) (by simp), emit_itemsLe _ _⟩
 
-/-- the invariant at the end of the whole encoding -/
-theorem encode_sinv {g : GraphVal} {A : Str → Kind → Prop} {o : Opts} {s : Skeleton} {order : List Nat} {agg : Agg}
-    (wf : WF g) (ht : toposort g = .ok order)
-    (hagg : aggOf g (order.filter (isImportNode g)) = some agg)
-    (hA : ∀ e ∈ fixedImports agg, A e.1 e.2.kind ∧ (e.2.kind = .instance → ∀ d ∈ e.2.deps, A d .instance))
-    (hAp : PkgImportsOk g o A) (he : encode g o = .ok s) :
-    WellScoped s = true ∧ (∀ n k, Item.import n k ∈ s → A n k) ∧
-      (∀ c args, Item.instantiate c args ∈ s → ArgNamesOk g (args.map (·.1))) := by
+/-- the implicit arguments `encode_imports` recorded, per node -/
+def impOf (st1 : EncSt) : Nat → List (Str × Kind × Nat) := fun id => implicitList st1.implicit id
+
+/-- the stages of a successful encoding -/
+structure Stages (g : GraphVal) (o : Opts) (order : List Nat) (s : Skeleton) (st1 st2 st3 : EncSt) : Prop where
+  imports : encodeImports g (order.filter (isImportNode g)) {} = .ok st1
+  nodes : encNodes g o (order.filter fun id => !isImportNode g id) st1 = .ok st2
+  exports : encExports g g.exports st2 = .ok st3
+  names : ∃ st4, encNames g st3 = .ok st4 ∧ st4.items = s
+
+theorem encode_stages {g : GraphVal} {o : Opts} {s : Skeleton} {order : List Nat} (ht : toposort g = .ok order)
+    (he : encode g o = .ok s) : ∃ st1 st2 st3, Stages g o order s st1 st2 st3 := by
   unfold encode at he
   cases hst : encodeSt g o with
   | error e => simp [hst] at he
@@ -630,16 +673,34 @@ theorem encode_sinv {g : GraphVal} {A : Str → Kind → Prop} {o : Opts} {s : S
         | panic p => simp [h3] at hst
         | ok st3 =>
           simp only [h3] at hst
-          have hcomplete : ∀ nd ∈ g.nodes, nd.isImport = true → nd.id ∈ order.filter (isImportNode g) := by
-            intro nd hnd hi
-            have hin : nd.id ∈ order := (toposort_complete ht).2 _ (List.mem_map_of_mem (f := (·.id)) hnd)
-            have : isImportNode g nd.id = true := by
-              simp [isImportNode, node?_of_mem wf.idsNodup hnd, hi]
-            exact List.mem_filter.mpr ⟨hin, this⟩
-          obtain ⟨s1, i1⟩ := encodeImports_sinv (A := A) (B := ArgNamesOk g) wf hcomplete hagg hA h1
-          have s2 := encNodes_sinv wf hAp _ s1 i1 h2
-          have s3 := encExports_sinv _ s2 h3
-          have s4 := encNames_sinv wf s3 hst
-          exact ⟨s4.wsc, s4.imports, s4.insts⟩
+          exact ⟨st1, st2, st3, h1, h2, h3, st, hst, rfl⟩
+
+theorem toposort_imports_complete {g : GraphVal} {order : List Nat} (wf : WF g) (ht : toposort g = .ok order) :
+    ∀ nd ∈ g.nodes, nd.isImport = true → nd.id ∈ order.filter (isImportNode g) := by
+  intro nd hnd hi
+  have hin : nd.id ∈ order := (toposort_complete ht).2 _ (List.mem_map_of_mem (f := (·.id)) hnd)
+  have : isImportNode g nd.id = true := by
+    simp [isImportNode, node?_of_mem wf.idsNodup hnd, hi]
+  exact List.mem_filter.mpr ⟨hin, this⟩
+
+/-- the invariant at the end of the whole encoding -/
+theorem encode_sinv {g : GraphVal} {A C : Str → Kind → Prop} {o : Opts} {s : Skeleton} {order : List Nat} {agg : Agg}
+    (wf : WF g) (ht : toposort g = .ok order)
+    (hagg : aggOf g (order.filter (isImportNode g)) = some agg)
+    (hA : ∀ e ∈ fixedImports agg, A e.1 e.2.kind ∧ (e.2.kind = .instance → ∀ d ∈ e.2.deps, A d .instance))
+    (hAp : PkgImportsOk g o A) (hCd : DefExportsOk g C)
+    (hCe : ∀ e ∈ g.exports, ∀ n, g.node? e.2 = some n → C e.1 n.ty.kind)
+    {st1 st2 st3 : EncSt} (hs : Stages g o order s st1 st2 st3) :
+    ImpNamed g (impOf st1) ∧ WellScoped s = true ∧ (∀ n k, Item.import n k ∈ s → A n k) ∧
+      (∀ c args, Item.instantiate c args ∈ s → ArgsOk g (impOf st1) args) ∧
+      (∀ n k i, Item.export n k i ∈ s → C n k) ∧
+      ItemsLe st1 st2 ∧ ItemsLe st2 st3 ∧ (∃ D, s = st3.items ++ D) := by
+  obtain ⟨st4, h4, rfl⟩ := hs.names
+  obtain ⟨s1, i1⟩ := encodeImports_sinv (A := A) (B := ArgsOk g (impOf st1)) (C := C) wf
+    (toposort_imports_complete wf ht) hagg hA hs.imports
+  obtain ⟨s2, l2⟩ := encNodes_sinv (Imp := impOf st1) wf hAp hCd _ s1 (fun _ _ => rfl) hs.nodes
+  obtain ⟨s3, l3⟩ := encExports_sinv _ s2 hCe hs.exports
+  obtain ⟨s4, l4⟩ := encNames_sinv wf s3 h4
+  exact ⟨i1, s4.wsc, s4.imports, s4.insts, s4.exports, l2, l3, l4⟩
 
 end Wac
